@@ -315,6 +315,17 @@ class SimFile:
             self.nonempty_reads += 1
         return chunk
 
+    def readinto(self, b):
+        data = self.read(len(b))
+        b[:len(data)] = data
+        return len(data)
+
+    def readable(self):
+        return True
+
+    def seekable(self):
+        return True
+
     def seek(self, off, whence=0):
         self.seeks.append((off, whence))
         if self.seek_fault is not None and len(self.seeks) == 1:
